@@ -1,8 +1,8 @@
 SPECIFICATION Spec
 CONSTANTS
   Rich = FALSE
-  KeepParams = FALSE
-  LengthFastPath = TRUE
+  KeepParams = TRUE
+  LengthFastPath = FALSE
   StrictIdText = TRUE
-INVARIANTS RoundTripLaw CanonicalDERLaw
+INVARIANTS WireCanonicalLaw
 CHECK_DEADLOCK FALSE
